@@ -7508,6 +7508,10 @@ TableCollection_set_indexes(TableCollection *self, PyObject *arg, void *closure)
     if (TableCollection_check_state(self) != 0) {
         goto out;
     }
+    if (arg == NULL) {
+        PyErr_SetString(PyExc_TypeError, "Cannot delete the indexes attribute");
+        goto out;
+    }
 
     err = parse_indexes_dict(self->tables, arg);
     if (err != 0) {
